@@ -698,9 +698,51 @@ def r6_evaluated_first(ctx, repo, cls):
         ctx.inconclusive("R6", construct, where(mod, fn), "no path queues a design", key="evaluated-first")
 
 
+def r7_own_cost_lists(ctx, repo, wc):
+    """the worst-case evaluator extends a design's cost lists IN PLACE (append / insert): every design must own its lists.
+    `X.costs = Y.costs` (the bare attribute of another design, no copy) anywhere on the evaluator's side makes two designs
+    share one list, and the extra objective of the one is appended to the other as well"""
+    run = wc.methods.get("run")
+    if run is None:
+        return
+    inplace = [c for c in ast.walk(run) if isinstance(c, ast.Call) and isinstance(c.func, ast.Attribute) and c.func.attr in ("append", "insert", "extend")
+               and (access_path(c.func.value) or "").split(".")[-1] in ("costs", "costs_signed")]
+    inplace += [s_ for s_ in ast.walk(run) if isinstance(s_, ast.AugAssign) and (access_path(s_.target) or "").split(".")[-1] in ("costs", "costs_signed")]
+    C = "%s (cost lists)" % wc.name
+    if not inplace:
+        ctx.holds("R7", C, where(wc.module, run), "the extra objective is not written into the cost lists in place: sharing a list between designs would not double it")
+        return
+    # the evaluator's side: the evaluator classes and the Job they drive (Individual.sync, which adopts the fields of a design
+    # that came back from another process, replaces one object by its own transferred copy and is not looked at)
+    owners = [k for k in repo.mro(wc) if k.module.name in ("operators",)] + [repo.cls("Job", "job")]
+    shared = None
+    n = 0
+    for k in owners:
+        for mname, m in k.methods.items():
+            for s_ in ast.walk(m):
+                if not isinstance(s_, ast.Assign):
+                    continue
+                for t in s_.targets:
+                    tp = access_path(t) or ""
+                    if tp.split(".")[-1] not in ("costs", "costs_signed") or "." not in tp:
+                        continue
+                    n += 1
+                    vp = access_path(s_.value) if isinstance(s_.value, ast.Attribute) else None
+                    if vp and vp.split(".")[-1] in ("costs", "costs_signed") and vp.rsplit(".", 1)[0] != tp.rsplit(".", 1)[0]:
+                        shared = shared or (k, m, s_, "%s.%s binds %s to the very list object of %s (no copy); %s.run then extends cost lists in place (%s): the extra objective of one design is "
+                                            "appended to every design that shares the list, so a cost vector grows beyond one entry per objective plus one"
+                                            % (k.name, mname, tp, vp, wc.name, text(inplace[0])[:80]))
+    if shared:
+        ctx.violated("R7", C, where(shared[0].module, shared[2]), shared[3])
+    else:
+        ctx.holds("R7", C, where(wc.module, run), "no design is given the cost list of another design (%d cost-list assignments on the evaluator's side looked at); in-place extension in run() "
+                  "touches one design" % n)
+
+
 def run(ctx):
     repo = ctx.repo
     ctx.rule("R6", "the designs are evaluated before their neighbours are built")
+    ctx.rule("R7", "every design owns its cost lists (the worst-case evaluator extends them in place)")
     for rid, doc in (("R1", "work lists filled by add() are emptied after their last use on every normal path of run()"),
                      ("R2", "neighbour construction: axis range, sign set, fresh copy, same-index tolerance, one child per iteration, children reset, queued"),
                      ("R3", "worst-case sensitivity = sum |f0(parent)-f0(child)|, written once into costs and costs_signed before the marker"),
@@ -725,3 +767,4 @@ def run(ctx):
     r5_entry(ctx, repo, gr)
     r6_evaluated_first(ctx, repo, wc)
     r6_evaluated_first(ctx, repo, gr)
+    r7_own_cost_lists(ctx, repo, wc)
